@@ -94,6 +94,10 @@ func genH264AU(t *core.Tape, mtu int, allowParams bool, state *int) h264AU {
 }
 
 // genH264AUx: with supersede, SPS and PPS units are sprinkled freely (not in pairs).
+// h264SharedPrefix, when non-nil, is copied over the first bytes of every ordinary unit's body: consecutive
+// slices of a real stream share their first bytes (slice header), so fragments of different units can be equal.
+var h264SharedPrefix []byte
+
 func genH264AUx(t *core.Tape, mtu int, allowParams bool, state *int, supersede bool) h264AU {
 	var au h264AU
 	n := 1 + t.Intn(6)
@@ -116,6 +120,14 @@ func genH264AUx(t *core.Tape, mtu int, allowParams bool, state *int, supersede b
 			size = 65530 + t.Intn(3000) // larger than any 16-bit length: key frames of real encoders are
 		}
 		add(typ, byte(t.Intn(4)), size)
+		if h264SharedPrefix != nil {
+			u := au.units[len(au.units)-1]
+			u[0] = h264SharedPrefix[0]
+			copy(u[1:], h264SharedPrefix[1:])
+			if u[len(u)-1] == 0 {
+				u[len(u)-1] = 0x5A
+			}
+		}
 		*state = 0
 	}
 	for i := 0; i < n; i++ {
@@ -346,7 +358,13 @@ func genH265Units(t *core.Tape, mtu int) [][]byte {
 			layer = byte(t.Intn(64))
 		}
 		tid := byte(1 + t.Intn(7))
+		if t.Chance(1, 6) && !(typ == 0 && layer < 32) {
+			tid = 0 // not a legal HEVC value, but a legal RFC 7798 header word; excluded only where the header would read 00 00
+		}
 		size := nalSize(t, mtu, 3, 3)
+		if mtu >= 30000 && t.Chance(1, 2) {
+			size = 20000 + t.Intn(45000)
+		}
 		u := make([]byte, 0, size)
 		u = append(u, typ<<1|layer>>5, layer<<3|tid)
 		u = append(u, nalBody(t, size-2)...)
